@@ -919,6 +919,16 @@ func (g *Gen) verifyFunc(fn *ssa.Function, con *Contract) (vc *VC, err error) {
 			}
 		}
 	}
+	var hsites []string
+	for site := range vc.hitsUsed {
+		hsites = append(hsites, site)
+	}
+	sort.Strings(hsites)
+	for _, site := range hsites {
+		if !x.seenSites[site] {
+			vc.oblige(&Obl{Name: name + "/assert/" + strings.ReplaceAll(site, " ", "_") + "/site-missing/hits", Kind: "assert", Props: con.Props, Reach: "true", Goal: "false", Src: "hits() names a call site that does not exist: " + site})
+		}
+	}
 	for site := range con.SiteSets {
 		if !x.seenSites[site] {
 			vc.oblige(&Obl{Name: name + "/assert/" + strings.ReplaceAll(site, " ", "_") + "/site-missing/ghost-set", Kind: "assert", Props: con.Props, Reach: "true", Goal: "false", Src: "ghost assignment names a call site that does not exist: " + site})
@@ -987,13 +997,21 @@ func (x *Exec) frameGoals(st *State, only map[string]bool) ([]frameGoal, bool) {
 	if con == nil {
 		return nil, true
 	}
+	// `modifies *` covers the heap and the ghosts, not the lock state: a function returns with the locks it was
+	// entered with unless it says `modifies held(m)`
+	allMod := false
 	for _, m := range con.Mods {
 		if m.All {
+			allMod = true
+		}
+	}
+	if allMod {
+		if _, ok := vc.reg().sorts["Held"]; !ok {
 			return nil, true
 		}
 	}
 	entry := x.oldOf(st)
-	if st.base != entry.base {
+	if st.base != entry.base && !allMod {
 		return nil, false
 	}
 	envOld := x.newEnv(entry, entry)
@@ -1003,6 +1021,12 @@ func (x *Exec) frameGoals(st *State, only map[string]bool) ([]frameGoal, bool) {
 		allowedWhole[envOld.compByName("ghost:"+ef.Name)] = true
 	}
 	for _, m := range con.Mods {
+		if m.All {
+			continue
+		}
+		if allMod && !(m.Expr != nil && m.Expr.Op == "call" && m.Expr.Name == "held") {
+			continue
+		}
 		if m.MapHeap {
 			mv := envOld.eval(m.Expr)
 			if mt, ok := mv.typ.Underlying().(*types.Map); ok {
@@ -1036,6 +1060,9 @@ func (x *Exec) frameGoals(st *State, only map[string]bool) ([]frameGoal, bool) {
 		if only != nil && !only[k] {
 			continue
 		}
+		if allMod && k != "Held" {
+			continue
+		}
 		bare := strings.Trim(k, "|")
 		if k == "RType" {
 			// allocation discipline: tags change only to the struct types the contract declares (`allocates`)
@@ -1056,7 +1083,7 @@ func (x *Exec) frameGoals(st *State, only map[string]bool) ([]frameGoal, bool) {
 		}
 		// (Held is framed like a heap: a function returns with the locks it was entered with, unless its contract says
 		// `modifies held(m)` - a forgotten Unlock is a frame violation)
-		if k == "next" || k == "Owned" || k == "Calls" || k == "Spawns" || k == "Frozen" || strings.HasPrefix(bare, "armed$") || strings.HasPrefix(bare, "IterVis$") {
+		if k == "next" || k == "Owned" || k == "Calls" || k == "SiteHits" || k == "Spawns" || k == "Frozen" || strings.HasPrefix(bare, "armed$") || strings.HasPrefix(bare, "IterVis$") {
 			continue
 		}
 		if allowedWhole[k] {
